@@ -1404,6 +1404,9 @@ func main() {
 			decisionFunc("driver/netconf/driver.go", "Driver.storeMessage"), decisionFunc("driver/netconf/driver.go", "Driver.getMessage"))
 		fmt.Fprintf(&sw, "(* driver/netconf/rpc.go Driver.sendRPC (the polling goroutine as one effect) *)\nDefinition send_rpc_code : list dstmt :=\n  %s.\n",
 			decisionFunc("driver/netconf/rpc.go", "Driver.sendRPC", "@opaque-go"))
+		fmt.Fprintf(&sw, "(* response/netconf.go NetconfResponse.record1dot1Chunks, record1dot1, Record *)\nDefinition record_chunks_code : list dstmt :=\n  %s.\nDefinition record11_code : list dstmt :=\n  %s.\nDefinition nc_record_code : list dstmt :=\n  %s.\n",
+			decisionFunc("response/netconf.go", "NetconfResponse.record1dot1Chunks"), decisionFunc("response/netconf.go", "NetconfResponse.record1dot1"),
+			decisionFunc("response/netconf.go", "NetconfResponse.Record"))
 		{
 			var ru []string
 			for _, fn := range []string{"Channel.ReadUntilFuzzy", "Channel.ReadUntilExplicit", "Channel.ReadUntilPrompt", "Channel.ReadUntilAnyPrompt"} {
